@@ -205,6 +205,9 @@ func c07Alphabet(quick bool) []c07Elem {
 		"/livesim2/eccp_cenc/testpic_2s/V300/init.mp4?nowMS=610000",
 		"/livesim2/eccp_cbcs/testpic_2s/A48/init.mp4?nowMS=610000",
 		"/livesim2/drm_EZDRM-1-key-cbcs-test/testpic_2s/V300/init.mp4?nowMS=610000",
+		"/livesim2/drm_EZDRM-2-keys-cbcs-test/testpic_2s/V300/init.mp4?nowMS=610000",
+		"/livesim2/drm_EZDRM-2-keys-cbcs-test/testpic_2s/A48/init.mp4?nowMS=610000",
+		"/livesim2/eccp_cbcs/testpic_2s/V300/init.mp4?nowMS=610000",
 		"/livesim2/timesubsstpp_en,sv/testpic_2s/timestpp-en/init.mp4?nowMS=610000",
 		// media: 300 and 304 map to the same VoD file one loop apart
 		"/livesim2/testpic_2s/V300/300.m4s?nowMS=610000",
@@ -215,6 +218,7 @@ func c07Alphabet(quick bool) []c07Elem {
 		"/livesim2/eccp_cbcs/testpic_2s/V300/304.m4s?nowMS=620000",
 		"/livesim2/eccp_cenc/testpic_2s/A48/300.m4s?nowMS=610000",
 		"/livesim2/drm_EZDRM-1-key-cbcs-test/testpic_2s/V300/300.m4s?nowMS=610000",
+		"/livesim2/drm_EZDRM-2-keys-cbcs-test/testpic_2s/V300/300.m4s?nowMS=610000",
 		"/livesim2/segtimeline_1/testpic_2s/V300/54000000.m4s?nowMS=610000",
 		"/livesim2/testpic_2s/imsc1_txt_sv/300.m4s?nowMS=610000",
 		"/livesim2/testpic_2s/imsc1_img_en/300.m4s?nowMS=610000",
@@ -230,6 +234,12 @@ func c07Alphabet(quick bool) []c07Elem {
 		"/livesim2/bbb_hevc_ac3_8s/audio_300.m4s?nowMS=610000",
 		"/livesim2/bbb_hevc_ac3_8s/video_300.m4s?nowMS=610000",
 		"/livesim2/segtimeline_1/testpic_alt_seg_dur_stl/Manifest.mpd?nowMS=7000",
+		// cyclic status codes with different start numbers in the same cycle
+		"/livesim2/statuscode_%5B%7Bcycle:30,rsq:0,code:404%7D%5D/testpic_2s/V300/30.m4s?nowMS=90000",
+		"/livesim2/statuscode_%5B%7Bcycle:30,rsq:0,code:404%7D%5D/testpic_2s/V300/31.m4s?nowMS=90000",
+		"/livesim2/snr_10/statuscode_%5B%7Bcycle:30,rsq:0,code:404%7D%5D/testpic_2s/V300/40.m4s?nowMS=90000",
+		"/livesim2/snr_10/statuscode_%5B%7Bcycle:30,rsq:0,code:404%7D%5D/testpic_2s/V300/41.m4s?nowMS=90000",
+		"/livesim2/start_20/statuscode_%5B%7Bcycle:30,rsq:1,code:410%7D%5D/testpic_2s/A48/31.m4s?nowMS=90000",
 		// patch, vod, pages
 		"/patch/livesim2/patch_60/testpic_2s/Manifest.mpp?publishTime=1970-01-01T00%3A10%3A00Z&nowMS=620000",
 		"/patch/livesim2/patch_60/segtimeline_1/testpic_2s/Manifest.mpp?publishTime=1970-01-01T00%3A10%3A00Z&nowMS=620000",
@@ -644,7 +654,7 @@ func c07Kind(name string) string {
 	case strings.HasSuffix(u, ".jpg"):
 		kind = "thumb"
 	}
-	for _, f := range []string{"eccp_", "drm_", "chunkdur_", "timesubs", "scte35", "segtimeline_", "periods_", "imsc1", "A48", "audio_"} {
+	for _, f := range []string{"statuscode_", "eccp_", "drm_", "chunkdur_", "timesubs", "scte35", "segtimeline_", "periods_", "imsc1", "A48", "audio_"} {
 		if strings.Contains(u, f) {
 			kind += "+" + strings.TrimSuffix(f, "_")
 		}
